@@ -109,6 +109,16 @@ func (l *UDPListener) Run() {
 			continue
 		}
 
+		// A datagram that was already waiting in this socket when the connected socket of
+		// a new face came into being (the normal case for the fragments of one packet,
+		// which arrive back to back) is read here although its endpoint has a face by
+		// now. It belongs to that face: another face for the same endpoint would split
+		// the fragments of the packet between two reassembly stores.
+		if existing := l.findFace(remoteURI); existing != nil {
+			existing.handleIncomingFrame(recvBuf[:readSize])
+			continue
+		}
+
 		// If frame received here, must be for new remote endpoint
 		newTransport, err := MakeUnicastUDPTransport(remoteURI, l.localURI, PersistencyOnDemand)
 		if err != nil {
@@ -119,6 +129,18 @@ func (l *UDPListener) Run() {
 		core.LogInfo(l, "Accepting new UDP face ", newTransport.RemoteURI())
 		MakeNDNLPLinkService(newTransport, MakeNDNLPLinkServiceOptions()).Run(recvBuf[:readSize])
 	}
+}
+
+// findFace returns the running face between this listener's local endpoint and the remote
+// endpoint, if there is one.
+func (l *UDPListener) findFace(remoteURI *defn.URI) LinkService {
+	for _, face := range FaceTable.GetAll() {
+		if face.State() == defn.Up && face.LocalURI() != nil && face.RemoteURI() != nil &&
+			face.RemoteURI().String() == remoteURI.String() && face.LocalURI().String() == l.localURI.String() {
+			return face
+		}
+	}
+	return nil
 }
 
 // isDecodableFrame reports whether the link service would decode frame: exactly one
